@@ -151,3 +151,152 @@ theorem dedupRef_eval (v : Atom → Bool) (e : Expr Atom) (hf : Faithful e) : ev
     exact ih ⟨a, ha⟩ (hf.1 a ha)
 
 end LE
+
+namespace LE
+
+/-! ### idempotence -/
+
+/-- no two operands render alike -/
+def DistinctR (l : List (Expr Atom)) : Prop := l.Pairwise (fun a b => renderStr a ≠ renderStr b)
+
+theorem eraseDups_distinct (seen : List Str) (l : List (Expr Atom)) :
+    DistinctR (eraseDupsByRender seen l) ∧ ∀ y ∈ eraseDupsByRender seen l, seen.contains (renderStr y) = false := by
+  induction l generalizing seen with
+  | nil => simp [eraseDupsByRender, DistinctR]
+  | cons x xs ih =>
+    simp only [eraseDupsByRender]
+    split
+    · exact ih seen
+    · next hc =>
+      obtain ⟨h1, h2⟩ := ih (seen ++ [renderStr x])
+      refine ⟨List.Pairwise.cons ?_ h1, ?_⟩
+      · intro y hy heq
+        have := h2 y hy
+        simp [← heq] at this
+      · intro y hy
+        simp only [List.mem_cons] at hy
+        rcases hy with rfl | hy
+        · simpa using hc
+        · have := h2 y hy
+          simp only [List.contains_eq_mem, List.mem_append, List.mem_cons, List.not_mem_nil, or_false,
+            decide_eq_false_iff_not, not_or] at this
+          simpa using this.1
+
+theorem eraseDups_id (seen : List Str) (l : List (Expr Atom)) (hd : DistinctR l)
+    (hs : ∀ y ∈ l, seen.contains (renderStr y) = false) : eraseDupsByRender seen l = l := by
+  induction l generalizing seen with
+  | nil => rfl
+  | cons x xs ih =>
+    unfold DistinctR at hd
+    rw [List.pairwise_cons] at hd
+    have hx := hs x (by simp)
+    simp only [eraseDupsByRender, hx, Bool.false_eq_true, ↓reduceIte, List.cons.injEq, true_and]
+    apply ih _ hd.2
+    intro y hy
+    have h1 := hs y (List.mem_cons_of_mem _ hy)
+    have h2 := hd.1 y hy
+    simp only [List.contains_eq_mem, List.mem_append, List.mem_cons, List.not_mem_nil, or_false,
+      decide_eq_false_iff_not, not_or]
+    exact ⟨by simpa using h1, fun h => h2 h.symm⟩
+
+theorem attach_map_dedupRef (args : List (Expr Atom)) :
+    args.attach.map (fun a => dedupRef a.1) = args.map dedupRef := by
+  rw [← List.attach_map_val (l := args) (f := dedupRef)]
+
+theorem dedupRef_node (op : Op) (args : List (Expr Atom)) :
+    dedupRef (.node op args) =
+      (match eraseDupsByRender [] (args.map dedupRef) with | [x] => x | u => .node op u) := by
+  rw [dedupRef, attach_map_dedupRef]
+  cases eraseDupsByRender [] (args.map dedupRef) with
+  | nil => rfl
+  | cons x xs => cases xs <;> rfl
+
+theorem eraseDups_rep (args : List (Expr Atom)) :
+    ∀ y ∈ eraseDupsByRender [] (args.map dedupRef), ∃ a ∈ args, y = dedupRef a := by
+  intro y hy
+  have := (eraseDups_sublist [] _).subset hy
+  simp only [List.mem_map] at this
+  obtain ⟨a, ha, rfl⟩ := this
+  exact ⟨a, ha, rfl⟩
+
+/-- **the reference deduplication is idempotent**: applying it twice changes nothing more -/
+theorem dedupRef_idem (e : Expr Atom) : dedupRef (dedupRef e) = dedupRef e := by
+  induction e using dedupRef.induct with
+  | case1 a => simp [dedupRef]
+  | case2 op args x hx ih =>
+    rw [attach_map_dedupRef] at hx
+    rw [dedupRef_node, hx]
+    obtain ⟨a, ha, rfl⟩ := eraseDups_rep args x (by rw [hx]; simp)
+    exact ih ⟨a, ha⟩
+  | case3 op args hne ih =>
+    rw [attach_map_dedupRef] at hne
+    have hnode : dedupRef (.node op args) = .node op (eraseDupsByRender [] (args.map dedupRef)) := by
+      rw [dedupRef_node]
+      split
+      · next x hx => exact absurd hx (hne x)
+      · rfl
+    rw [hnode, dedupRef_node]
+    have hfix : (eraseDupsByRender [] (args.map dedupRef)).map dedupRef = eraseDupsByRender [] (args.map dedupRef) := by
+      conv => rhs; rw [← List.map_id (eraseDupsByRender [] (args.map dedupRef))]
+      apply List.map_congr_left
+      intro y hy
+      obtain ⟨a, ha, rfl⟩ := eraseDups_rep args y hy
+      exact ih ⟨a, ha⟩
+    rw [hfix]
+    have hd := eraseDups_distinct [] (args.map dedupRef)
+    rw [eraseDups_id [] _ hd.1 (by intro y _; rfl)]
+    split
+    · next x hx' => exact absurd hx' (hne x)
+    · rfl
+
+theorem distinctR_renderInj (l : List (Expr Atom)) (hd : DistinctR l) : RenderInj l := by
+  induction l with
+  | nil => intro x hx; cases hx
+  | cons a r ih =>
+    unfold DistinctR at hd
+    rw [List.pairwise_cons] at hd
+    intro x hx y hy hxy
+    simp only [List.mem_cons] at hx hy
+    rcases hx with rfl | hx <;> rcases hy with rfl | hy
+    · rfl
+    · exact absurd hxy (hd.1 y hy)
+    · exact absurd hxy.symm (hd.1 x hx)
+    · exact ih hd.2 x hx y hy hxy
+
+/-- the reference deduplication of a render-faithful expression is render-faithful -/
+theorem dedupRef_faithful (e : Expr Atom) (hf : Faithful e) : Faithful (dedupRef e) := by
+  induction e using dedupRef.induct with
+  | case1 a => simp [dedupRef, Faithful]
+  | case2 op args x hx ih =>
+    rw [attach_map_dedupRef] at hx
+    rw [dedupRef_node, hx]
+    obtain ⟨a, ha, rfl⟩ := eraseDups_rep args x (by rw [hx]; simp)
+    rw [Faithful] at hf
+    exact ih ⟨a, ha⟩ (hf.1 a ha)
+  | case3 op args hne ih =>
+    rw [attach_map_dedupRef] at hne
+    have hnode : dedupRef (.node op args) = .node op (eraseDupsByRender [] (args.map dedupRef)) := by
+      rw [dedupRef_node]
+      split
+      · next x hx => exact absurd hx (hne x)
+      · rfl
+    rw [hnode]
+    rw [Faithful] at hf ⊢
+    refine ⟨?_, ?_⟩
+    · intro y hy
+      obtain ⟨a, ha, rfl⟩ := eraseDups_rep args y hy
+      exact ih ⟨a, ha⟩ (hf.1 a ha)
+    · have hfix : (eraseDupsByRender [] (args.map dedupRef)).map dedupRef = eraseDupsByRender [] (args.map dedupRef) := by
+        conv => rhs; rw [← List.map_id (eraseDupsByRender [] (args.map dedupRef))]
+        apply List.map_congr_left
+        intro y hy
+        obtain ⟨a, ha, rfl⟩ := eraseDups_rep args y hy
+        exact dedupRef_idem a
+      rw [hfix]
+      exact distinctR_renderInj _ (eraseDups_distinct [] (args.map dedupRef)).1
+
+/-- **`dedup` is idempotent** on render-faithful expressions -/
+theorem dedupE_idem (e : Expr Atom) (hf : Faithful e) : dedupE (dedupE e) = dedupE e := by
+  rw [dedupE_eq_ref e hf, dedupE_eq_ref _ (dedupRef_faithful e hf), dedupRef_idem]
+
+end LE
